@@ -759,6 +759,32 @@ def r_rebuild(P, R):
             else:
                 R.undecided('R-REBUILD', f.qualname, what,
                             'level argument not classified')
+    # the condition that justifies a mapped level is decided in one
+    # place: the flag is not rewritten on the way (the loader switches
+    # dynamic reordering off by its argument, the node builder chooses
+    # find_or_add by the flag; they must not come apart)
+    if only is None or any(q in REQUIRED_GUARD for q in only):
+        for q, cond in REQUIRED_GUARD.items():
+            key = cond.split("'")[1] if "'" in cond else None
+            if key is None:
+                continue
+            mod = q.rsplit('.', 1)[0]
+            for f in sorted(P.all_funcs({mod}), key=lambda f: f.qualname):
+                for x in au.walk_no_defs(f.node):
+                    if isinstance(x, ast.Subscript) and isinstance(
+                            x.ctx, ast.Store) and isinstance(
+                                x.slice, ast.Constant) and \
+                            x.slice.value == key:
+                        R.violation(
+                            'R-REBUILD', 'guard-flag-rewritten',
+                            f.qualname, key,
+                            f'`{au.short(x)}` is assigned in {f.name}: '
+                            f'the flag under which {q.rsplit(".", 1)[1]} '
+                            'builds nodes directly no longer is the '
+                            'argument by which the loader switched '
+                            'dynamic reordering off, so find_or_add can '
+                            'run with reordering requests armed',
+                            unit=f.unit.rel, line=x.lineno)
     R.floor(f'R-REBUILD find_or_add sites for {R.prop}', n,
             {None: 14}.get(None) if only is None else len(only))
 r_rebuild.NAME = 'R-REBUILD'
